@@ -22,10 +22,15 @@ func C16(run *report.Run) {
 		d = 3
 	}
 	for _, set := range templateSets(1, d, nil) {
-		rss = append(rss, routeState{mkTemplates(set, GP), none}, routeState{mkTemplates(set, G), v1})
+		rss = append(rss, routeState{ts: mkTemplates(set, GP), base: none}, routeState{ts: mkTemplates(set, G), base: v1})
 	}
 	for _, set := range templateSets(2, 2, nil) {
-		rss = append(rss, routeState{mkTemplates(set, G, GP), none})
+		rss = append(rss, routeState{ts: mkTemplates(set, G, GP), base: none})
+	}
+	// literal segments with characters that URL escaping treats specially (as in C03)
+	special := []string{"c++", "c  ", "c%2B%2B", "x", ""}
+	for _, set := range [][]string{{"/c++/{x}", "/c++"}, {"/c++", "/{x}"}, {"/{x}/c++", "/{x}/{y}"}} {
+		rss = append(rss, routeState{ts: mkTemplates(set, G, GP), base: none, segs: special})
 	}
 	// quick: pairs that reach depth 3 (a static segment recurring deeper in the sibling's subtree and the
 	// like) without security and cors and with fewer stacks; thorough has them in full through d = 3
@@ -39,7 +44,7 @@ func C16(run *report.Run) {
 				}
 			}
 			if deep {
-				rss = append(rss, routeState{mkTemplates(set, G, GP), none})
+				rss = append(rss, routeState{ts: mkTemplates(set, G, GP), base: none})
 			}
 		}
 	}
